@@ -196,6 +196,14 @@ def evaluate(case):
     rec = Rec()
     got = F.run_auth_scripts([wb, lb], dict(fields), {CID: rec})
     info = {'expected': exp, 'matched': case.get('matched')}
+    if got is True and exp:
+        # the accepted witness again, in the same process, over other sigfield contents: the reference decides (no verdict
+        # is remembered per signature, key or lock)
+        f2 = {k: v + b'!' for k, v in fields.items()}
+        exp2, _ = ref_accept(lock, items, f2)
+        info['replayed'] = True
+        if not exp2 and F.run_auth_scripts([wb, lb], dict(f2), {CID: Rec()}):
+            fails.append(('builders/%s-lock/accepted-witness-still-accepted-over-other-sigfield-contents' % lock['kind'], 'witness %s' % wit['kind']))
     if case.get('matched') and wit['kind'] in ('single', 'single2', 'multi', 'graftroot-key', 'graftap-key'):
         # the property itself: the builder's witness unlocks the matching lock
         if not got:
@@ -355,6 +363,8 @@ def task_pairs(ctx):
         ctx.count('lock:' + c['lock']['kind'])
         ctx.count('perturbation:%s' % c['perturbation'])
         ctx.count('expected:%s' % info['expected'])
+        if info.get('replayed'):
+            ctx.count('accepted witness replayed over other sigfield contents')
         for s, d in fails:
             ctx.fail('pair', s, c, d)
         if nt:
